@@ -314,6 +314,23 @@ pub fn check_loop(case: &LoopCase, out: &LoopOutcome) -> Vec<Finding> {
                     if got[0] != want[0] {
                         finding(&mut f, "C02", "tally-mismatch", format!("{}: recorded sample {} (caller, round {round}) stores tally {:?} but the thread performed {:?} between its timestamps", case.describe(), r * threads, got[0], want[0]));
                     }
+                    // Results land in index order: with the threads identified by name, every sample of the
+                    // round must carry exactly the tally of the thread at its position (C02 and C08).
+                    if out.pool_index.len() >= threads {
+                        for tr in traces.iter().filter(|t| !t.sections.is_empty()) {
+                            let Some(&pi) = out.pool_index.get(tr.thread as usize) else { continue };
+                            if pi >= threads || tr.sections.len() <= round {
+                                continue;
+                            }
+                            let own = reference_tally(tr.sections[round].timed_ops());
+                            let own = if own.tallies.iter().all(|x| *x == (0, 0)) { None } else { Some(own) };
+                            if got[pi] != own {
+                                for prop in ["C02", "C08"] {
+                                    finding(&mut f, prop, "tally-wrong-thread", format!("{}: round {round}: the sample at position {pi} (thread `divan-{pi}`, 0 = caller) stores tally {:?} but that thread performed {:?} between its timestamps", case.describe(), got[pi], own));
+                                }
+                            }
+                        }
+                    }
                     let key = |t: &Option<divan::verif::TallyMirror>| format!("{t:?}");
                     let mut g: Vec<String> = got.iter().map(key).collect();
                     let mut w: Vec<String> = want.iter_mut().map(|t| key(t)).collect();
